@@ -8,6 +8,10 @@
      src/time.c:92         dispatch_time                       -> DispatchTimeF
      src/time.c:149        dispatch_walltime                   -> DispatchWalltimeF
      src/time.c:166        _dispatch_timeout                   -> TimeoutM
+     src/time.c:217        _dispatch_time_nanoseconds_since_epoch -> NanosSinceEpochF
+                           (the absolute CLOCK_REALTIME deadline a timed dispatch_semaphore_wait
+                           hands to sem_timedwait: src/shims/lock.c _dispatch_sema4_timedwait,
+                           USE_POSIX_SEM)
    On the pinned configuration (x86-64 Linux) _dispatch_time_nano2mach/mach2nano are the
    identity and the three `now`s are clock_gettime(MONOTONIC | BOOTTIME | REALTIME)
    converted with _dispatch_timespec_to_nano; `now` is a parameter here.
@@ -23,6 +27,9 @@
      "wall_underflow"   dispatch_time, wall clock, delta<0: a sum of exactly 1 is encoded
                         as -1 == DISPATCH_TIME_FOREVER
      "walltime_range"   dispatch_walltime does tv_sec*NPS + tv_nsec + delta unchecked
+     "epoch_clock"      _dispatch_time_nanoseconds_since_epoch takes every word with the top
+                        bit set for negated wall-clock nanoseconds, monotonic-clock words
+                        (top bits 10) included
    (the repairs are /verif/patches/C12-fix-*.diff; the Fixed branches transcribe them).
    Mut selects a deliberately wrong variant (non-vacuity of the laws).
 
@@ -55,7 +62,7 @@ MONONOW == H          \* DISPATCH_MONOTONICTIME_NOW
 SMIN == 0 - H         \* INT64_MIN
 SMAX == H - 1         \* INT64_MAX
 
-AllFixes == {"encode_boundary", "wall_underflow", "walltime_range"}
+AllFixes == {"encode_boundary", "wall_underflow", "walltime_range", "epoch_clock"}
 
 \* (uint64_t)x: x mod 2^W.  Written with the single-wrap cases first (same value, see
 \* HelpersExact) because that is all the additions need and SMT solvers prefer it.
@@ -165,10 +172,25 @@ TimeoutM(when, now) ==
        IN IF Mut = "timeout_noclamp" THEN U(d.value - n)
           ELSE IF n >= d.value THEN 0 ELSE d.value - n
 
+\* _dispatch_time_nanoseconds_since_epoch(when): the time `when` as nanoseconds since the POSIX
+\* epoch (absolute CLOCK_REALTIME deadline).  Pinned: `if ((int64_t)when < 0) return
+\* (uint64_t)-(int64_t)when;` -- every word with bit W-1 set, the monotonic-clock words (bit W-2
+\* clear) included; repaired (patches/C12-fix-epoch-monotonic.diff): the wall bit is tested too,
+\* so that uptime AND monotonic times take the `now.wall + _dispatch_timeout(when)` path.
+\* @type: (Set(Str), Int, $now) => Int;
+NanosSinceEpochF(F, when, now) ==
+  IF when = FOREVER THEN FOREVER
+  ELSE IF (IF "epoch_clock" \in F THEN S(when) < 0 /\ BitQ(when) ELSE S(when) < 0)
+  THEN U(0 - S(when))                                     \* (uint64_t)-(int64_t)when
+  ELSE IF Mut = "epoch_relative" THEN TimeoutM(when, now)
+       ELSE U(now.wall + TimeoutM(when, now))             \* _dispatch_get_nanoseconds() + _dispatch_timeout(when)
+
 \* @type: (Int, Int, $now) => Int;
 DispatchTime(inval, delta, now) == DispatchTimeF(Fixed, inval, delta, now)
 \* @type: (Bool, Int, Int, Int, $now) => Int;
 DispatchWalltime(hasTs, sec, nsec, delta, now) == DispatchWalltimeF(Fixed, hasTs, sec, nsec, delta, now)
+\* @type: (Int, $now) => Int;
+NanosSinceEpoch(when, now) == NanosSinceEpochF(Fixed, when, now)
 
 (***************************************************************************)
 (* PART 2 -- the reference meaning (property C12)                          *)
@@ -233,6 +255,19 @@ RefWait(r, now) ==
   IF r = FOREVER \/ RefOutOfRange(r) THEN M
   ELSE LET a == RefAbs(r, now)  n == NowOf(RefClock(r), now) IN IF a <= n THEN 0 ELSE a - n
 
+\* Is r a correct absolute wall-clock deadline (ns since the epoch, what sem_timedwait is given)
+\* for a wait until t?  A time that has elapsed ON ITS OWN CLOCK must not block: the deadline is
+\* not after the wall clock's now.  Otherwise the deadline is as far from the wall clock's now as
+\* t is from its own clock's now (mach <-> nanoseconds is the identity on this platform).
+\* FOREVER stays FOREVER.  Words that denote no finite time (RefOutOfRange; dispatch_time never
+\* returns them) are not judged.
+\* @type: (Int, Int, $now) => Bool;
+RefDeadlineOK(t, r, now) ==
+  IF t = FOREVER THEN r = FOREVER
+  ELSE IF RefOutOfRange(t) THEN TRUE
+  ELSE IF RefElapsed(t, now) THEN r <= now.wall
+  ELSE r - now.wall = RefWait(t, now)
+
 (***************************************************************************)
 (* Input classes on which the PINNED code is known to deviate (the precise *)
 (* signatures of the known findings).  "" = no known deviation.            *)
@@ -253,6 +288,10 @@ ClassWalltime(hasTs, sec, nsec, delta, now) ==
   ELSE IF s >= Q THEN "wt_unsaturated"
   ELSE IF s <= 1 /\ delta >= 0 THEN "wt_past_nonneg_delta"
   ELSE ""
+
+\* _dispatch_time_nanoseconds_since_epoch: every monotonic-clock word (top bits 10)
+\* @type: (Int) => Str;
+ClassEpoch(t) == IF t >= H /\ t < H + Q THEN "epoch_mono" ELSE ""
 
 (***************************************************************************)
 (* Environment and the finite input sets TLC enumerates                    *)
